@@ -208,6 +208,10 @@ func noteTerm(a value) *Term {
 func (e *Engine) mapRange(fr *frame, instr *ssa.Range, m *omap) iter {
 	live := m.liveIndices()
 	it := &omapIter{m: m, perm: live}
+	if fr.i.raceState() != nil {
+		it.i = fr.i
+		fr.i.raceMap(m, "mread")
+	}
 	if m != nil {
 		it.next0 = len(m.keys)
 	}
